@@ -98,7 +98,10 @@ def generate(rng, tier):
         fields[rng.randrange(k)] = "status"
     has_enum = "status" in fields
     recs = []
-    for i in range(rng.choice([0, 1, 2, 3, 4, 6, 9, 12] + ([25, 55] if tier != "quick" else []))):
+    sizes = [0, 1, 2, 3, 4, 6, 9, 12] + ([25, 55, 70] if tier != "quick" else [])
+    if rng.random() < 0.04:
+        sizes = [52, 60, 75]          # beyond the package's (unused) default limits 30:20
+    for i in range(rng.choice(sizes)):
         rec = []
         for f in fields:
             if f == "id":
